@@ -53,6 +53,7 @@ type TMHist struct {
 	Play    []int    `json:"play"`                   // after which op indexes a hand is played (to get between-hands states)
 	PolSeed uint64   `json:"pol_seed"`               // seed of the betting policy used for those hands
 	AutoIn  bool     `json:"auto_seat_in,omitempty"` // at the end one reserved player is left to the engine's own seating-in (17 s)
+	Foreign int      `json:"steps_with_a_timed_engine_transition,omitempty"`
 }
 
 func (d *Drv) applyTM(op *TMOp) (res string, errText string) {
@@ -255,7 +256,14 @@ func runTMHist(h *TMHist, seed uint64) []TMCase {
 		d.Quiesce(quiesceLimit)
 		post := d.Abs()
 		op.Drawn = drawnSeats(&op, pre, post)
-		cases = append(cases, TMCase{Hist: h.Index, Step: k, Pre: pre, Op: op, Res: res, Err: et, Post: post})
+		// the engine has transitions of its own that run on a clock (it seats a reserved player in after its waiting period, an MTT
+		// table starts by itself): when one of them lands between the two snapshots the step shows two transitions at once and is
+		// not used (on a busy machine a history takes long enough for that to happen)
+		if foreignTransition(&op, pre, post) {
+			h.Foreign++
+		} else {
+			cases = append(cases, TMCase{Hist: h.Index, Step: k, Pre: pre, Op: op, Res: res, Err: et, Post: post})
+		}
 		h.Ops[k] = op
 		if res == "panic" {
 			break
@@ -329,6 +337,34 @@ func runTMHist(h *TMHist, seed uint64) []TMCase {
 	}
 	d.takeEvents()
 	return cases
+}
+
+func foreignTransition(op *TMOp, pre, post TAbs) bool {
+	if pre.Status != post.Status || pre.GameCount != post.GameCount || pre.StartAt != post.StartAt || pre.SM.Init != post.SM.Init {
+		return true
+	}
+	subject := map[int]bool{}
+	switch op.Kind {
+	case "reserve":
+		subject[op.Join.ID] = true
+	case "join", "redeem":
+		subject[op.ID] = true
+	case "update":
+		for _, j := range op.Joins {
+			subject[j.ID] = true
+		}
+	}
+	for _, p := range pre.Players {
+		if p.In || subject[p.ID] {
+			continue
+		}
+		for _, q := range post.Players {
+			if q.ID == p.ID && q.In {
+				return true
+			}
+		}
+	}
+	return false
 }
 
 func betweenHandsBusy(a TAbs) bool {
